@@ -345,7 +345,9 @@ class TcpClient(object):
 
         while True:
             try:
-                received = [i for i in self.socket.recv(4096)]
+                # a ZMQ_STREAM socket delivers [routing id, data] pairs, the
+                # routing id is not part of the stream
+                received = [i for i in self.socket.recv_multipart()[-1]]
 
                 self.buffer.extend(received)
                 # print(''.join(x.encode('hex') for x in self.buffer))
